@@ -492,9 +492,10 @@ def forward_signatures(func, calls, args, kwargs, sig):
         try:
             fwdargsvals.extend(rn(fwdvarargs))
             fwdkwargsvals.update(rn(fwdvarkwargs))
-        except (TypeError, ValueError):
+        except Exception:
             # the other starred argument resolves to something that is
-            # not a sequence / a mapping
+            # not a sequence / a mapping, or that cannot be gone through
+            # out of context
             raise UnknownForwards
         using_partial = wrapped_func is functools.partial
         if using_partial:
@@ -505,7 +506,9 @@ def forward_signatures(func, calls, args, kwargs, sig):
         try:
             wrapped_sig = forged_signature(
                 wrapped_func, args=fwdargsvals, kwargs=fwdkwargsvals)
-        except (ValueError, TypeError):
+        except Exception:
+            # no signature for it, or it cannot be examined out of context
+            # (eg. a proxy that is not ready)
             raise UnknownForwards
         try:
             ausig = _signatures.forwards(
